@@ -51,6 +51,9 @@ pub struct Rec {
     pub uncovered: Vec<String>,
     pub legs: Vec<Leg>,
     pub pool: Vec<(Rat, Rat)>,
+    /// the record comes from the implementation-shaped model: `dist` is THE apportionment, not one of many
+    #[serde(default)]
+    pub exact: bool,
 }
 
 impl Rec {
@@ -227,7 +230,7 @@ fn cell_lines(sec: &str, date: NaiveDate, c: &Cell, r: &Render, out: &mut Vec<Tr
             out.push(Transaction {
                 date,
                 ticker: t.clone(),
-                operation: Operation::Accumulation { amount: Decimal::ONE, total_value: gbp(c.ac().mul(*share)), tax_paid: gbp(Rat::ZERO) },
+                operation: Operation::Accumulation { amount: Decimal::ONE, total_value: gbp(c.ac().mul(*share)), tax_paid: gbp(Rat::new(1, 4)) },
             });
         }
     }
